@@ -60,6 +60,25 @@ def weave_sharded(u, u4, u3):
 
     u.text('''
 /// The directory of shard `i` of the cache rooted at `base`.
+/// `c` is `t / n` rounded up (the smallest per-shard capacity whose `n` shards hold `t` files).
+pub open spec fn shard_cap_is(c: int, t: int, n: int) -> bool {
+    c * n >= t && (c - 1) * n < t
+}
+
+pub proof fn lemma_ceil_div(t: int, n: int)
+    requires
+        n > 0,
+        t >= 0,
+    ensures
+        shard_cap_is(t / n + (if t % n != 0 { 1int } else { 0int }), t, n),
+{
+    assert(t == n * (t / n) + t % n && 0 <= t % n < n) by (nonlinear_arith)
+        requires n > 0, t >= 0;
+    let c = t / n + (if t % n != 0 { 1int } else { 0int });
+    assert(c * n >= t && (c - 1) * n < t) by (nonlinear_arith)
+        requires t == n * (t / n) + t % n, 0 <= t % n < n, c == t / n + (if t % n != 0 { 1int } else { 0int }), n > 0;
+}
+
 pub open spec fn shard_dir_of(base: PathV, i: usize) -> PathV {
     child(base, fmt_shard(i))
 }
@@ -359,12 +378,15 @@ pub open spec fn sharded_frame(old: World, fin: World, root: PathV, n: usize, na
     ics.sub(['fn temp_dir']).body_start('broadcast use group_asref;\n        proof { lemma_temp_subdir(); }')
 
     im = u.item('src/sharded.rs', ['impl Cache'])
-    nw = u.under_contract(im.sub(['fn new']), ['C12', 'C10', 'C16'])
+    nw = u.under_contract(im.sub(['fn new']), ['C12', 'C10', 'C16', 'C07', 'C11'])
     nw.air = 'sharded::Cache::new'
     nw.contract(ensures=[
         ('C12:fewer-than-two-shards-are-treated-as-two', 'r.spec_n() == (if num_shards < 2 { 2usize } else { num_shards }) && r.wf()'),
         ('C12 C16:root-is-the-configured-directory', 'r.spec_root() == pbv(base_dir)'),
+        ('C07 C11:a-shard-holds-the-total-capacity-divided-by-the-number-of-shards-rounded-up',
+         'shard_cap_is(r.spec_shard_cap() as int, if total_capacity < r.spec_n() { r.spec_n() as int } else { total_capacity as int }, r.spec_n() as int)'),
     ])
+    nw.insert_after_stmt('let shard_capacity =', '\n        proof { lemma_ceil_div(total_capacity as int, num_shards as int); }')
     nw.insert_before('let shard_capacity =', 'proof { assert(total_capacity as int / num_shards as int <= total_capacity as int / 2) by (nonlinear_arith) requires num_shards >= 2, total_capacity >= 0; }\n        ')
     rnd = u.under_contract(im.sub(['fn random_shard_id']), ['C12', 'C07'])
     rnd.air = 'sharded::Cache::random_shard_id'
@@ -535,7 +557,7 @@ pub open spec fn sharded_frame(old: World, fin: World, root: PathV, n: usize, na
                 ('C18 C05:without-a-real-fault-a-failed-write-published-nothing', 'r.is_err() && final(w).hard_faults == old(w).hard_faults ==> final(w).published == old(w).published'),
                 ('C01 C03 C19:a-write-never-changes-the-bytes-of-any-file',
                  'bytes_kept(*old(w), *final(w))'),
-                ('C13 C11:success-means-a-publication-happened' + ('' if opname == 'set' else '-unless-the-key-was-already-bound'),
+                ('C13 C11 C18:success-means-a-publication-happened' + ('' if opname == 'set' else '-unless-the-key-was-already-bound'),
                  'r.is_ok() ==> final(w).published > old(w).published' + ('' if opname == 'set' else ' || old(w).files.contains_key(%s) || old(w).files.contains_key(%s)' % (P1, P2))),
                 ('C11 C09:a-sharded-cache-never-ends-up-with-two-copies-of-one-key',
                  'final(w).hard_faults == old(w).hard_faults && !(old(w).files.contains_key(%s) && old(w).files.contains_key(%s)) && !old(w).dirs.contains(%s) && !old(w).dirs.contains(%s) '
